@@ -32,7 +32,7 @@ def build_traces(path, tier, seed):
         add({"kind": "rel", "law": "lin", "clause": clause, "tol": enc(tol), "scale": enc(scale), "f": enc(f), "g": enc(g),
              "x": enc_seq(np.ravel(x)), "y": enc_seq(np.ravel(y)), "z": enc_seq(np.ravel(z))}, dict(m, law=clause))
 
-    nev = 30 if tier == "quick" else 120
+    nev = 30 if tier == "quick" else 250
     nmax = 300 if tier == "quick" else 800
     for i in range(nev):
         n = gen.length(rng, 3, nmax)
@@ -192,7 +192,7 @@ def build_traces(path, tier, seed):
 def run(tier, seed):
     rep = Report("C02", tier, seed)
     wd = workdir("C02")
-    maxlen = 4 if tier == "quick" else 5
+    maxlen = 4 if tier == "quick" else 6
     tab = os.path.join(wd, "table.txt")
     with warnings.catch_warnings():
         warnings.simplefilter("ignore")
